@@ -40,12 +40,13 @@ PARAMS = [dict(b1=0.5, b2=-0.75, s=0.25), dict(b1=-0.25, b2=0.5, s=1.0)]
 if (_SEED // 2) % 2:
     PARAMS = [dict(b1=1.0, b2=0.25, s=-0.5), dict(b1=0.75, b2=-1.25, s=0.125)]
 
-# draw variables: appearance order z, a, M; sorted-name order M, a, z; type-name order M(DET_A), z(DET_B), a(DET_C)
-DRAWS = {'z_first': 'DET_B', 'a_second': 'DET_C', 'M_third': 'DET_A'}
+# draw variables: appearance order z, a, M; sorted-name order M, a, z; type-name order M(DET_C), z(Uniform), a(normal_halton2)
+# two of the user-defined type names differ from a native name only by case (legal: the reserved names are exact)
+DRAWS = {'z_first': 'Uniform', 'a_second': 'normal_halton2', 'M_third': 'DET_C'}
 PATTERN = {
-    'DET_A': lambda n, r: 0.1 * (n + 1) + 0.01 * (r + 1),
-    'DET_B': lambda n, r: -0.2 * (n + 1) + 0.03 * (r + 1) * (r + 1),
-    'DET_C': lambda n, r: 0.05 * (n + 2) * (r + 1) - 0.3,
+    'DET_C': lambda n, r: 0.1 * (n + 1) + 0.01 * (r + 1),
+    'Uniform': lambda n, r: -0.2 * (n + 1) + 0.03 * (r + 1) * (r + 1),
+    'normal_halton2': lambda n, r: 0.05 * (n + 2) * (r + 1) - 0.3,
 }
 
 
@@ -198,6 +199,27 @@ def _mc(task, rec):
                 called = sorted(t for t, _, _ in log)
                 if called != sorted(DRAWS[nm] for nm in used) or any((n2, r2) != (nobs, Rn) for _, n2, r2 in log):
                     bad('generators-called', f'generator calls {log} for variables {used}')
+                # the same formula through a BIOGEME object (its own draw generation and hand-over to the engine)
+                if Rn == task['Rs'][-1]:
+                    from vf.engine import make_biogeme
+                    try:
+                        db2, _ = make_db(nobs, [])
+                        bs = make_biogeme(db2, {'v': R.Builder(spec).build(formula)}, number_of_draws=Rn)
+                        sim = [float(v) for v in bs.simulate({nm: p[nm] for nm in bs.free_beta_names})['v']]
+                        db3, _ = make_db(nobs, [])
+                        import numpy as np
+                        bl = make_biogeme(db3, R.Builder(spec).build(('+', formula, ('num', 0.0))), number_of_draws=Rn)
+                        ll = float(bl.calculate_likelihood(np.array([p[nm] for nm in bl.free_beta_names], dtype=float), scaled=False))
+                    except Exception as e:
+                        bad(f'raised-{type(e).__name__}', 'BIOGEME path: ' + str(e)[:200])
+                        rec.retire = True
+                        return
+                    rec.case(('mc-biogeme', tuple(ds), nobs, fname, Rn, pi), (ds, nobs, fname, Rn, pi, [round(v, 10) for v in sim]),
+                             outcome=('mc-biogeme', len(used)))
+                    if len(sim) != nobs or any(not close(g, w) for g, w in zip(sim, want)):
+                        bad('monte-carlo-value-not-mean-over-own-series:BIOGEME.simulate', f'{fname}: {sim} expected {want}')
+                    if not close(ll, sum(want), 1e-9):
+                        bad('monte-carlo-value-not-mean-over-own-series:BIOGEME.calculate_likelihood', f'{fname}: {ll} expected {sum(want)}')
 
 
 def _seeded(task, rec):
